@@ -301,6 +301,16 @@ def compiled_mutable(objdir):
                 continue
             if "BitSerializer" not in name:
                 continue
+            # library symbols only: a harness function that merely has a library type among its template arguments
+            # (`(anonymous namespace)::run<BitSerializer::Csv::CsvArchive>(…)::pieces`) is not one
+            bare = name
+            while True:
+                nb = re.sub(r"<[^<>]*>", "", bare)
+                if nb == bare:
+                    break
+                bare = nb
+            if not bare.startswith("BitSerializer::"):
+                continue
             if name.startswith(("guard variable", "vtable", "typeinfo", "VTT", "construction vtable", ".hidden")) or "__asan" in name \
                     or "__odr" in name or "DW.ref" in name:
                 continue
